@@ -200,6 +200,7 @@ func evalGen(tier string, r *rng, emit func(string)) {
 	if tier == "thorough" {
 		n = 30000
 	}
+	evalGenExtra(prop, tier, r, emit) // families of the gap analysis (evalfam4.go, evalfam5.go)
 	for i := 0; i < n; i++ {
 		if prop == "C01" && i%4 == 3 {
 			emit(prop + ";steps=200000;" + genPrecCase(r))
